@@ -1,6 +1,7 @@
 """C06 - IPM file round trip: messages written are the messages read back; instances do not influence each other."""
 import copy
 import io
+import os
 import sys
 import threading
 
@@ -73,6 +74,11 @@ def cases(ctx):
         yield {'kind': 'interleave', 'salt': rng.randint(0, 10 ** 9), 'instances': rng.randint(2, 4)}
     if ctx.shard < (2 if quick else 8):
         yield {'kind': 'threads', 'threads': 8, 'rounds': 50 if quick else 200, 'salt': ctx.shard}
+    # the very first use of the library in a process, from several threads at once (lazily built tables, first-use caches)
+    for j in range(2 if quick else 12):
+        yield {'kind': 'cold_start', 'threads': 8, 'salt': ctx.shard * 100 + j}
+    if ctx.shard in (5, 6):
+        yield {'kind': 'composed', 'salt': ctx.shard}
 
 
 # -------------------------------------------------------------------------------------------------------- round trip
@@ -81,6 +87,10 @@ def judge(ctx, case):
         return judge_roundtrip(ctx, case)
     if case['kind'] == 'interleave':
         return judge_interleave(ctx, case)
+    if case['kind'] == 'cold_start':
+        return judge_cold_start(ctx, case)
+    if case['kind'] == 'composed':
+        return judge_composed(ctx, case)
     return judge_threads(ctx, case)
 
 
@@ -352,6 +362,179 @@ def judge_threads(ctx, case):
         ctx.sample({'case': case, 'operations': len(log), 'thread_alternations': alternations})
 
 
+COLD_CHILD = r'''
+import sys, io, json, threading
+sys.path.insert(0, sys.argv[1])
+spec = json.loads(sys.stdin.read())
+sys.setswitchinterval(1e-6)
+results = [None] * len(spec['files'])
+start = threading.Barrier(len(spec['files']))
+
+
+def worker(i):
+    f = spec['files'][i]
+    try:
+        start.wait()
+        # nothing of cardutil has run in this process yet: import and first use happen here, in every thread at once
+        from cardutil import mciipm
+        out = []
+        if f['role'] == 'reader':
+            for rec in mciipm.IpmReader(io.BytesIO(bytes.fromhex(f['data'])), encoding=f['enc'], blocked=f['blocked']):
+                out.append(sorted((k, repr(v)) for k, v in rec.items()))
+            results[i] = ['records', out]
+        else:
+            buf = io.BytesIO()
+            with mciipm.IpmWriter(buf, encoding=f['enc'], blocked=f['blocked']) as w:
+                for m in f['msgs']:
+                    w.write(dict(m))
+            results[i] = ['file', buf.getvalue().hex()]
+    except BaseException as ex:
+        results[i] = ['error', type(ex).__name__ + ': ' + str(ex)[:100]]
+
+
+ths = [threading.Thread(target=worker, args=(i,)) for i in range(len(spec['files']))]
+for t in ths:
+    t.start()
+for t in ths:
+    t.join(120)
+print(json.dumps(results))
+'''
+
+
+def judge_cold_start(ctx, case):
+    """
+    Fresh interpreter; the threads are released before anything of cardutil has run, so import-time and first-use state is
+    built under contention.  Every thread works on its own file; its result must be what the same work gives alone
+    (computed here, in this already warm process, by the reference encoder/decoder).
+    """
+    import json
+    import subprocess
+    from .. import env
+    cfg = msgwork.cfg_of('packaged')
+    rng = ctx.rng_global('cold', case['salt'])
+    files, expect = [], []
+    for t in range(case['threads']):
+        enc = ENCS[t % 3]
+        blocked = bool(t % 2)
+        msgs = [{k: v for k, v in x.items() if isinstance(v, (str, int))} for x in gen_list(rng, cfg, enc, rng.randint(1, 4))]
+        msgs = [dict(x, MTI=x.get('MTI', '1240')) for x in msgs]
+        wires = [ref.encode(x, cfg, enc) for x in msgs]
+        stream = refb.vbs(wires)
+        data = refb.block(stream) if blocked else stream
+        if t % 4 == 3:
+            files.append({'role': 'writer', 'enc': enc, 'blocked': blocked, 'msgs': msgs})
+            expect.append(['file', data.hex()])
+        else:
+            files.append({'role': 'reader', 'enc': enc, 'blocked': blocked, 'data': data.hex()})
+            expect.append(['records', [sorted((k, repr(v)) for k, v in ref.decode_strict(w, cfg, enc).items()) for w in wires]])
+    e = dict(os.environ, PYTHONDONTWRITEBYTECODE='1', PYTHONWARNINGS='ignore')
+    e.pop('PYTHONPATH', None)
+    try:
+        p = subprocess.run([env.PYTHON, '-B', '-c', COLD_CHILD, env.REPO], input=json.dumps({'files': files}).encode(),
+                           capture_output=True, env=e, timeout=300)
+        got = json.loads(p.stdout.decode().strip().splitlines()[-1])
+    except Exception as ex:  # noqa
+        ctx.inconclusive_because('cold-start child did not report: %r' % (ex,))
+        return
+    ctx.case_done(case)
+    ctx.count('cold-start trials (fresh interpreter, threads released before first use)')
+    expect = json.loads(json.dumps(expect))          # same shape as what travelled through the child's JSON report
+    for i, (g, w) in enumerate(zip(got, expect)):
+        if g != w:
+            kind = g[0] if g else 'nothing'
+            ctx.violation('isolation:cold_start:%s:%s' % (files[i]['role'], 'error' if kind == 'error' else 'result_differs'),
+                          {'case': case, 'thread': i, 'got': repr(g)[:300], 'want_kind': w[0]})
+            return
+
+
+class _ThroughReader(io.RawIOBase):
+    """A binary stream whose bytes come from the records of another VbsReader (a blocked file shipped one block per record)."""
+
+    def __init__(self, reader):
+        self.reader = reader
+        self.buf = b''
+
+    def readable(self):
+        return True
+
+    def read(self, n=-1):
+        while n < 0 or len(self.buf) < n:
+            try:
+                self.buf += next(self.reader)
+            except StopIteration:
+                break
+        if n < 0:
+            out, self.buf = self.buf, b''
+        else:
+            out, self.buf = self.buf[:n], self.buf[n:]
+        return out
+
+
+def judge_composed(ctx, case):
+    """
+    Readers that depend on each other's progress: one reader's file object is fed by another reader, and a reader whose
+    source is slow must not hold up a reader on a different file.  Run in worker threads with generous deadlines; a thread
+    that never finishes is a violation here (a deadlock does not resolve itself), reported with what it was doing.
+    """
+    import threading
+    import time
+    m = ctx.mciipm
+    cfg = msgwork.cfg_of('packaged')
+    rng = ctx.rng_global('composed', case['salt'])
+    msgs = gen_list(rng, cfg, 'latin_1', 12)
+    wires = [ref.encode(x, cfg, 'latin_1') for x in msgs]
+    inner = refb.block(refb.vbs(wires))
+    outer = refb.vbs([inner[k:k + 1014] for k in range(0, len(inner), 1014)])
+    want = [ref.decode_strict(w, cfg, 'latin_1') for w in wires]
+    ctx.case_done(case)
+    box = {}
+
+    def nested():
+        r = m.IpmReader(_ThroughReader(m.VbsReader(io.BytesIO(outer))), blocked=True)
+        box['nested'] = list(r)
+    th = threading.Thread(target=nested, daemon=True)
+    th.start()
+    th.join(120)
+    ctx.count('composed reader runs')
+    if th.is_alive():
+        ctx.violation('isolation:reader_reading_through_another_reader_never_finishes', {'case': case, 'waited_s': 120})
+        return
+    if box.get('nested') != want:
+        ctx.violation('isolation:reader_reading_through_another_reader:result_differs', {'case': case, 'got': len(box.get('nested') or [])})
+        return
+
+    class Slow(io.BytesIO):
+        gate = threading.Event()
+
+        def read(self, n=-1):
+            Slow.gate.wait(30)
+            return super().read(n)
+    fast_done = threading.Event()
+
+    def slow_reader():
+        try:
+            list(m.VbsReader(Slow(refb.vbs([b'x' * 10]))))
+        except Exception:  # noqa
+            pass
+
+    def fast_reader():
+        box['fast'] = list(m.IpmReader(io.BytesIO(refb.vbs(wires))))
+        fast_done.set()
+    a = threading.Thread(target=slow_reader, daemon=True)
+    a.start()
+    time.sleep(0.05)
+    b = threading.Thread(target=fast_reader, daemon=True)
+    b.start()
+    ok = fast_done.wait(20)
+    Slow.gate.set()
+    a.join(60)
+    b.join(60)
+    if not ok:
+        ctx.violation('isolation:reader_starved_by_a_reader_on_another_file', {'case': case, 'waited_s': 20})
+    elif box.get('fast') != want:
+        ctx.violation('isolation:reader_next_to_a_slow_reader:result_differs', {'case': case})
+
+
 def canaries(ctx):
     cfg = msgwork.cfg_of('packaged')
     a = {'MTI': '1240', 'DE2': '4' * 16}
@@ -387,6 +570,10 @@ def require(m):
         reasons.append('threaded stress did not run')
     elif c.get('thread alternations between consecutive operations', 0) < 50:
         reasons.append('threads did not actually overlap (fewer than 50 alternations observed)')
+    if not c.get('cold-start trials (fresh interpreter, threads released before first use)'):
+        reasons.append('no cold-start trial ran')
+    if not c.get('composed reader runs'):
+        reasons.append('composed readers never run')
     if not c.get('round trips of files over 1 MiB'):
         reasons.append('no file over 1 MiB was round-tripped')
     if max(m['classes'].get('list sizes', [0])) < 80:
